@@ -303,11 +303,18 @@ func (i *impl) exec(op string) string {
 		i.mu.Lock()
 		defer i.mu.Unlock()
 		s := make([]string, len(i.dials))
+		pattern := true
 		for k, d := range i.dials {
 			s[k] = "0"
 			if d.reconnect {
 				s[k] = "1"
 			}
+			if d.reconnect != (k > 0) {
+				pattern = false
+			}
+		}
+		if pattern {
+			return "dials first-plain-then-reconnect"
 		}
 		return "dials " + strings.Join(s, ",")
 	case "logs":
@@ -400,6 +407,8 @@ func main() {
 				out := do("write " + pay)
 				if strings.HasPrefix(out, "ok") {
 					okWrites = append(okWrites, pay)
+				} else {
+					alive = false // budget exhausted through the write path
 				}
 				sig += "w"
 			case k == 4:
@@ -440,6 +449,8 @@ func main() {
 				if strings.HasPrefix(out, "pong") {
 					// pongs are writes too
 					okWrites = append(okWrites, lp.Hex([]byte("pong")))
+				} else {
+					alive = false
 				}
 				sig += "p"
 			case k == 10:
@@ -449,7 +460,9 @@ func main() {
 					ps = append(ps, lp.Hex([]byte{byte(c), byte(seq), byte(j), 0xbb}))
 				}
 				out := do("burst " + strings.Join(ps, ","))
-				_ = out
+				if strings.Contains(out, ":err") {
+					alive = false
+				}
 				sig += "b"
 			default:
 				if rng.Intn(4) == 0 {
